@@ -375,8 +375,12 @@ pub fn cache_async(attr: TokenStream, item: TokenStream) -> TokenStream {
                 cachelito_core::InvalidationRegistry::global().register_callback(
                     #fn_name_str,
                     move || {
+                        // One critical section under the order lock (which every insert holds
+                        // throughout): clearing the map first would let a concurrent insert
+                        // slip in between and lose its queue entry to the second clear.
+                        let mut order_write = #order_ident.lock();
                         #cache_ident.clear();
-                        #order_ident.lock().clear();
+                        order_write.clear();
                     }
                 );
             });
